@@ -10,7 +10,7 @@ queries observed so far when the op is executed.
 import os, random, shutil, json
 import host as H
 from world import World, Violation, NS
-from model import (gen_addr, conf_quote, wellshaped, SVC_TYPES, BOOL_TRUE, BOOL_FALSE,
+from model import (gen_addr, mask_value, addr_value, groups_to_text, conf_quote, wellshaped, SVC_TYPES, BOOL_TRUE, BOOL_FALSE,
                    NICKLEN, USERLEN, HOSTLEN, REALLEN)
 
 WORDCH = "abcdefghijklmnopqrstuvwxyzABCDEFGHIJKLMNOPQRSTUVWXYZ0123456789-_[]{}|^`"
@@ -22,7 +22,7 @@ FAULT_KINDS = ["seg", "rd_eagain", "rd_eintr", "xr_lost", "xr_dup", "xr_stale", 
                "cli_disconnect", "cli_reannounce_live", "cli_registered_early", "cli_hurry",
                "cli_pass_repeat", "cli_pass_illshaped", "timer_fire", "wall_jump", "junk",
                "cfg_same", "cfg_torn", "cfg_garbage", "cfg_missing", "cfg_eio", "cfg_burst",
-               "cfg_timeout", "extreme_ids"]
+               "cfg_timeout", "cfg_tables", "extreme_ids"]
 
 
 def word(rnd, n, chars=WORDCH):
@@ -63,13 +63,7 @@ def gen_rules(rnd, svcnames):
         if rnd.random() < 0.3:
             r["account"] = rnd.choice(["oper", "op*", "o?er", "*", "nobody", "oper:1", "acct*", "?*"])
         if rnd.random() < 0.4:
-            base = rnd.choice(["10.1.2.3", "10.1.0.0", "192.168.7.9", "2001:db8:0:1::5", "2001:db8::", "10.1.128.0"])
-            if ":" in base:
-                r["address"] = (base + "/%d" % rnd.choice([16, 17, 31, 32, 33, 47, 48, 49, 63, 64, 65, 127, 128])
-                                if rnd.random() < 0.8 else rnd.choice(["2001:db8:*", "2001:*", "*"]))
-            else:
-                r["address"] = (base + "/%d" % rnd.choice([8, 15, 16, 17, 23, 24, 25, 31, 32])
-                                if rnd.random() < 0.8 else rnd.choice(["10.1.*", "10.*", "192.168.7.*", "*"]))
+            r["address"] = gen_rule_address(rnd)
         if rnd.random() < 0.3:
             r["username"] = rnd.choice(["joe", "j*", "~*", "*", "?oe", "id*"])
         if rnd.random() < 0.3:
@@ -81,6 +75,76 @@ def gen_rules(rnd, svcnames):
             r["trust_username"] = rnd.choice(BOOL_TRUE + BOOL_FALSE)
         rules[nm] = r
     return rules
+
+
+def gen_rule_address(rnd):
+    """An address criterion: CIDR or wildcard, v4 or v6, over a fixed pool (so that several rules of one table
+    overlap), over arbitrary networks with every prefix length, and over networks whose network part is all
+    zero (0.0.0.0/0, 0.*, 0::/1 ...)."""
+    k = rnd.random()
+    if k < 0.45:
+        base = rnd.choice(["10.1.2.3", "10.1.0.0", "192.168.7.9", "2001:db8:0:1::5", "2001:db8::", "10.1.128.0"])
+        if ":" in base:
+            return (base + "/%d" % rnd.choice([16, 17, 31, 32, 33, 47, 48, 49, 63, 64, 65, 127, 128])
+                    if rnd.random() < 0.8 else rnd.choice(["2001:db8:*", "2001:*", "*"]))
+        return (base + "/%d" % rnd.choice([8, 15, 16, 17, 23, 24, 25, 31, 32])
+                if rnd.random() < 0.8 else rnd.choice(["10.1.*", "10.*", "192.168.7.*", "*"]))
+    if k < 0.65:
+        return rnd.choice(["0.0.0.0/0", "0.0.0.0/1", "0.*", "0.0.0.0/8", "0.0.0.0/%d" % rnd.randint(0, 7), "128.0.0.0/1",
+                           "0::/0", "0::/1", "0::/%d" % rnd.randint(2, 96), "0:0:*", "8000::/1", "0::ffff:0:0/96",
+                           "0.1.*", "0.128.0.0/9"])
+    if rnd.random() < 0.5:
+        b = [rnd.choice([0, 1, 10, 127, 128, 192, 255, rnd.randrange(256)]) for _ in range(4)]
+        if rnd.random() < 0.25:
+            n = rnd.randint(1, 3)
+            return ".".join(str(x) for x in b[:n]) + ".*"
+        return "%d.%d.%d.%d/%d" % (b[0], b[1], b[2], b[3], rnd.randint(0, 32))
+    groups = [rnd.choice([0, 0, 1, 0x8000, 0xffff, 0x2001, 0xdb8, rnd.randrange(65536)]) for _ in range(8)]
+    if groups[0] == 0:
+        groups[0] = rnd.choice([1, 0x2001, 0xfe80])
+    if rnd.random() < 0.25:
+        n = rnd.randint(1, 7)
+        return ":".join("%x" % g for g in groups[:n]) + ":*"
+    return groups_to_text(groups, rnd, rnd.choice(["canon", "full"])) + "/%d" % rnd.randint(0, 128)
+
+
+def addr_near_rule(rnd, rules):
+    """-> (text, value) of a client address built from one rule's address criterion: inside the network, or
+    differing from it in exactly one bit (the last network bit, the first host bit, or any bit); None when no
+    usable rule exists or the result is a form the announce generator avoids."""
+    cands = [rl["address"] for _, rl in sorted(rules.items()) if "address" in rl]
+    if not cands:
+        return None
+    try:
+        v, bits = mask_value(rnd.choice(cands))
+    except Exception:
+        return None
+    if v is None:
+        return None
+    n = int.from_bytes(v, "big")
+    host = 128 - bits
+    if host:
+        n = (n >> host << host) | rnd.choice([0, (1 << host) - 1, rnd.getrandbits(host), rnd.getrandbits(host)])
+    k = rnd.random()
+    if k < 0.2 and bits:
+        n ^= 1 << (128 - bits)              # last network bit: narrowly outside
+    elif k < 0.3 and host:
+        n ^= 1 << (host - 1)                # first host bit: still inside
+    elif k < 0.4:
+        n ^= 1 << rnd.randrange(128)
+    val = n.to_bytes(16, "big")
+    if val[:12] == b"\0" * 10 + b"\xff\xff":
+        b = val[12:]
+        if b[0] == 0 and b[1] == 0:
+            return None
+        return "%d.%d.%d.%d" % tuple(b), val
+    groups = [int.from_bytes(val[i:i + 2], "big") for i in range(0, 16, 2)]
+    if groups[:5] == [0] * 5 and groups[5] in (0, 0xffff):
+        return None                         # v4-compatible / odd mapped forms: left to gen_addr
+    txt = groups_to_text(groups, rnd, rnd.choice(["canon", "full", "pad"]))
+    if addr_value(txt) != val:
+        return None
+    return txt, val
 
 
 def gen_logs(rnd):
@@ -96,12 +160,13 @@ def render_cfg(cfg, scratch, libpath=None):
     mods = {"iauth": "iauth", "xquery": "iauth_xquery", "class": "iauth_class"}[cfg["modules"]]
     out = ['core {', ' library_path ( "%s" )' % (libpath or "lib"), ' modules ( %s )' % mods, '}']
     out.append('iauth {\n timeout %s\n}' % cfg["timeout"] if cfg.get("timeout") else 'iauth {\n}')
-    if cfg["modules"] != "iauth":
+    # omit_xquery / omit_class: the file does not mention the (empty) section at all
+    if cfg["modules"] != "iauth" and not (cfg.get("omit_xquery") and not cfg["services"]):
         out.append("iauth_xquery {")
         for n, t in cfg["services"].items():
             out.append(" %s %s" % (conf_quote(n), conf_quote(t)))
         out.append("}")
-    if cfg["modules"] == "class":
+    if cfg["modules"] == "class" and not (cfg.get("omit_class") and not cfg["rules"]):
         out.append("iauth_class {")
         out.append(' dummy "not-an-object"')
         for n, r in cfg["rules"].items():
@@ -156,6 +221,11 @@ class Gen:
         self.no_compat = cfg["modules"] == "class"
         self.w_adv = rnd.choice([0.3, 1, 3]) if cfg.get("timeout") else rnd.choice([0, 0.3])
         self.fired = {}
+        # service / rule tables as currently in force (changed by cfg_tables reloads); the plan keeps the initial cfg
+        self.svc_now = dict(cfg["services"])
+        self.rules_now = json.loads(json.dumps(cfg.get("rules", {})))
+        self.svc_ever = set(cfg["services"])
+        self.w_tables = rnd.choice([0.1, 0.25, 0.6])
 
     def fire(self, k):
         self.fired[k] = self.fired.get(k, 0) + 1
@@ -213,7 +283,11 @@ class Gen:
 
     def reply_text(self, svc):
         r = self.rnd
-        kinds, wts = self.policy.get(svc, (["OK"], [1]))
+        if svc not in self.policy:      # a service added by a later reload, or an unknown name
+            ks = ["OK", "OKA", "OKA", "OKE", "NO", "AGAIN", "MORE", "UNL"]
+            ws = [r.choice([0, 1, 1, 3]) for _ in ks]
+            self.policy[svc] = (ks, ws if sum(ws) else [1] + ws[1:])
+        kinds, wts = self.policy[svc]
         k = r.choices(kinds, wts)[0]
         txt = self.free_text()
         if k == "OK":
@@ -273,7 +347,7 @@ class Gen:
         acts.append((self.o.get("w_audit", 0.15), "audit"))
         if "junk" in self.faults:
             acts.append((0.8, "noise"))
-        if self.cfg["services"] and w.tags:
+        if self.svc_ever and w.tags:
             for f, wt in (("xr_dup", 0.5), ("xr_stale", 0.6), ("xr_forged", 0.4), ("xr_unknown_svc", 0.3),
                           ("xr_not_awaited", 0.4), ("xr_malformed", 0.3), ("xr_notfinal", 0.4)):
                 if f in self.faults:
@@ -284,6 +358,8 @@ class Gen:
                       ("cfg_eio", 0.05), ("cfg_burst", 0.05), ("cfg_timeout", 0.1)):
             if f in self.faults:
                 acts.append((wt, ("reload", f)))
+        if "cfg_tables" in self.faults and self.cfg["modules"] != "iauth":
+            acts.append((self.w_tables, ("reload", "cfg_tables")))
         wts = [a[0] for a in acts]
         a = r.choices([a[1] for a in acts], wts)[0]
         op = self.make(a, w)
@@ -322,6 +398,11 @@ class Gen:
             txt, val = gen_addr(r, fam)
             while self.no_compat and txt.startswith("0::") and "." in txt and "ffff" not in txt:
                 txt, val = gen_addr(r, fam)
+            if self.cfg["modules"] == "class" and r.random() < 0.45:
+                near = addr_near_rule(r, self.rules_now)
+                if near:
+                    txt, val = near
+                    self.fire("addr_near_rule")
             return {"op": "announce", "cid": cid, "addr": txt, "port": r.choice([1, 1024, 6667, 65535, r.randrange(1, 65536)]),
                     "laddr": r.choice(["0::1", "127.0.0.1", "192.0.2.1"]), "lport": r.choice([6667, 7000, 7701])}
         if a == "adv":
@@ -381,7 +462,7 @@ class Gen:
         if a[0] == "badreply":
             f = a[1]
             self.fire(f)
-            svcs = sorted(self.cfg["services"])
+            svcs = sorted(self.svc_ever)
             cids = sorted(w.live) or self.ids
             cid = r.choice(cids)
             kind, text = self.reply_text(r.choice(svcs))
@@ -413,8 +494,55 @@ class Gen:
                 op["count"] = r.choice([2, 3, 5])
             if f == "cfg_timeout":
                 op["timeout"] = r.choice([0, 5, 30, 300, 3600])
+            if f == "cfg_tables":
+                self.mutate_tables()
+                op["services"] = dict(self.svc_now)
+                op["rules"] = json.loads(json.dumps(self.rules_now))
+                op["omit"] = [k for k in ("omit_xquery", "omit_class") if r.random() < 0.5]
             return op
         return None
+
+    def mutate_tables(self):
+        """The operator edits the service table and/or the rule table: entries added, removed, changed in
+        place, a removed name brought back, a whole table emptied."""
+        r = self.rnd
+        for _ in range(r.choice([1, 1, 2, 3])):
+            if self.cfg["modules"] == "class" and r.random() < 0.4:
+                k = r.random()
+                names = sorted(self.rules_now)
+                if names and k < 0.3:
+                    del self.rules_now[r.choice(names)]
+                elif names and k < 0.6:
+                    nm = r.choice(names)
+                    fresh = gen_rules(r, sorted(self.svc_now))
+                    donor = fresh[sorted(fresh)[0]] if fresh else {}
+                    rl = self.rules_now[nm]
+                    if donor and r.random() < 0.7:
+                        key = r.choice(sorted(donor))
+                        rl[key] = donor[key]
+                    elif rl:
+                        del rl[r.choice(sorted(rl))]
+                elif k < 0.9:
+                    fresh = gen_rules(r, sorted(self.svc_now))
+                    for nm in sorted(fresh)[:2]:
+                        self.rules_now[nm] = fresh[nm]
+                else:
+                    self.rules_now = {}
+                continue
+            k = r.random()
+            names = sorted(self.svc_now)
+            if names and k < 0.35:
+                del self.svc_now[r.choice(names)]
+            elif names and k < 0.55:
+                self.svc_now[r.choice(names)] = r.choice(list(SVC_TYPES) + ["proxycheck"])
+            elif k < 0.92 and len(names) < 4:
+                gone = sorted(self.svc_ever - set(names))
+                pool = [n for n in SVC_POOL if n not in self.svc_now]
+                nm = r.choice(gone) if gone and r.random() < 0.5 else r.choice(pool)
+                self.svc_now[nm] = r.choice(SVC_TYPES)
+                self.svc_ever.add(nm)
+            elif k >= 0.92:
+                self.svc_now = {}
 
     def noise_line(self, w):
         r = self.rnd
@@ -686,6 +814,13 @@ class Exec:
             cfg2 = json.loads(json.dumps(self.cfg))
             cfg2["timeout"] = c["timeout"]
             text = render_cfg(cfg2, self.scratch)
+        elif how == "tables":
+            cfg2 = json.loads(json.dumps(self.cfg))
+            cfg2["services"] = dict(c["services"])
+            cfg2["rules"] = json.loads(json.dumps(c.get("rules", {})))
+            for k in ("omit_xquery", "omit_class"):
+                cfg2[k] = k in c.get("omit", [])
+            text = render_cfg(cfg2, self.scratch)
         elif how == "torn":
             text = text[:int(c["frac"] * len(text))]
         elif how == "garbage":
@@ -708,6 +843,11 @@ class Exec:
             if how == "timeout":
                 self.cfg["timeout"] = c["timeout"]
                 self.w.cfg["timeout"] = c["timeout"]
+                self.conf_text = text
+            elif how == "tables":
+                self.w.reconfig(cfg2["services"], cfg2["rules"])      # (World.cfg is this executor's cfg dict)
+                self.cfg["services"] = cfg2["services"]
+                self.cfg["rules"] = cfg2["rules"]
                 self.conf_text = text
             elif how in ("torn", "garbage"):
                 # by accident a valid file: what it says is now in force; the
@@ -766,6 +906,9 @@ class Exec:
             return False
         for cid in sorted(w.live):
             i = w.live[cid]
+            if i.opaque:
+                w.probe("opaque_after_drain")
+                continue
             if not w.blocked_by_bang(i):
                 w.v("C03", "stuck-after-drain", "client %d still undecided after faults stopped, every query was answered "
                     "and every deadline passed" % cid)
@@ -894,6 +1037,33 @@ def leak_summary(stderr):
     return "%s; first frames %s" % (m.group(1) if m else "?", fr[:4])
 
 
+RECOVER_ENV = {"ASAN_OPTIONS": "exitcode=77:abort_on_error=0:handle_abort=1:detect_leaks=0:malloc_context_size=12:"
+                               "detect_stack_use_after_return=0:halt_on_error=0"}
+
+
+def second_look(plan, res, tag):
+    """A run that died on an AddressSanitizer report is executed once more with the sanitizer in
+    report-and-continue mode (simhost is compiled with -fsanitize-recover=address; halting is the default),
+    so that the protocol monitors see what a production build would have written after the bad access
+    (typically: a message for a client whose record was just freed).  Monitor violations of that second run
+    are added to the result; the crash itself stays attributed to C08/C10 only."""
+    if not (res.exit is not None and res.exit.asan) or res.infra:
+        return
+    ex = Exec(plan["cfg"], leaks=False, tag=tag + "s", prop=plan.get("prop", "C10"), env=RECOVER_ENV)
+    if not ex.res.infra:
+        for op in plan["ops"]:
+            if not ex.apply(op):
+                break
+    ex.finish()
+    have = {(tuple(v.props), v.rule) for v in res.viol}
+    for v in ex.w.viol:
+        if (tuple(v.props), v.rule) not in have:
+            have.add((tuple(v.props), v.rule))
+            v.detail = "[seen after the sanitizer report, in report-and-continue mode] " + v.detail
+            res.viol.append(v)
+    res.extra["second_looks"] = 1
+
+
 def run_generated(rnd, opts=None, leaks=False, tag="p"):
     """Generate online and execute.  Returns (plan, result)."""
     opts = opts or {}
@@ -922,6 +1092,7 @@ def run_generated(rnd, opts=None, leaks=False, tag="p"):
     res.gen = {"faults": sorted(g.faults), "lenmode": g.lenmode, "clients": g.total, "conc": g.maxconc,
                "steps": g.max_steps, "p_reply": g.p_reply}
     plan = {"profile": "proto", "cfg": cfg, "ops": ops, "leaks": leaks, "prop": opts.get("prop", "C10")}
+    second_look(plan, res, tag)
     return plan, res
 
 
@@ -932,4 +1103,6 @@ def run_plan(plan, tag="r", leaks=None):
         for op in plan["ops"]:
             if not ex.apply(op):
                 break
-    return ex.finish()
+    res = ex.finish()
+    second_look(plan, res, tag)
+    return res
